@@ -7,6 +7,7 @@ def step (line : String) : String :=
   | "c17" :: args => Interp.run args
   | "c16" :: args => Val2idx.run args
   | "c15" :: args => Registry.run args
+  | "c12" :: args => TimeDec.run args
   | _ => "err bad-stream"
 
 partial def loop (h : IO.FS.Stream) : IO Unit := do
